@@ -40,6 +40,8 @@ type World struct {
 	FuncsAnalysed map[*ssa.Function]bool
 	Requested     map[string]bool // function keys the rules asked for (used by -freeze-params)
 	SitesExamined int
+
+	longLivedCache map[*types.TypeName]bool
 }
 
 func relPkg(path string) string {
